@@ -307,6 +307,7 @@ def run_c11(tier, budget, rnd) -> StreamResult:
     BOUNDS, Coalition, minimal_game_coalitions, ICG, gaps = _mods()
 
     res = StreamResult("search")
+    search_with_changing_gap(res, rnd)
     script = Script()
     quick = tier == "quick"
     procs_list = [1, 2, 3, 5, 16] if quick else list(range(1, 17))
@@ -383,7 +384,10 @@ def run_c11(tier, budget, rnd) -> StreamResult:
                 try:
                     with warnings.catch_warnings():
                         warnings.simplefilter("ignore")
-                        out = list(get_exploitabilities_of_action_sequences(g, full, fresh.gapf, max_size=k, processes=procs))
+                        # the size limit in the forms callers pass it: Python int, or a numpy integer (np.arange element, rng.integers(…))
+                        k_arg = k if k is None or procs != procs_list[0] else [k, np.int64(k), np.int32(k)][len(chunk_pairs) % 3]
+                        res.count(f"search:max_size-form:{type(k_arg).__name__}")
+                        out = list(get_exploitabilities_of_action_sequences(g, full, fresh.gapf, max_size=k_arg, processes=procs))
                 except Exception as e:       # in-domain call: the search reports nothing
                     res.violation(f"exhaustive search raised {type(e).__name__} on an in-domain call", ctx, key="search:raised")
                     script.add(f"srch expl {gt} 1 {nlist(start)} {'none' if k is None else k} {procs} {pz}", err_kind(e), ctx)
@@ -1668,6 +1672,55 @@ def greedy_many_candidates(res, rnd, tier, budget) -> None:
                 break
         else:
             res.nontrivial.add(("greedy-many", n, steps, reps))
+
+
+GAP_PARAMETER = [1.0]      # read by `parametrised_gap` at call time, in whichever process evaluates it
+
+
+def parametrised_gap(game):
+    """a caller's own gap function (module level, hence picklable by reference) that reads a module-level setting"""
+    from incomplete_cooperative.norms import l1_norm
+    return GAP_PARAMETER[0] * float(l1_norm(game))
+
+
+def search_with_changing_gap(res, rnd) -> None:
+    """Two searches with the SAME number of worker processes, between which the caller changes a module-level setting its own gap
+    function reads: each search must report the gaps of the gap function as it is when the search runs (workers must not answer
+    from a snapshot of the caller's module taken during an earlier search)."""
+    from incomplete_cooperative.gameplay import get_exploitabilities_of_action_sequences
+    BOUNDS, Coalition, minimal_game_coalitions, ICG, gaps = _mods()
+    n = 3
+    table = [float(x) for x in G.sa_game(n, rnd, "int")]
+    full = full_game(n, table)
+    start = G.minimal_ids(n)
+    ks = [Coalition(c) for c in start]
+    outs = {}
+    try:
+        for factor in (1.0, 4.0):
+            GAP_PARAMETER[0] = factor
+            for procs in (2, 2, 3):
+                g = ICG(n, BOUNDS["superadditive"])
+                g.set_known_values(full.get_values(ks), ks)
+                with warnings.catch_warnings():
+                    warnings.simplefilter("ignore")
+                    out = list(get_exploitabilities_of_action_sequences(g, full, parametrised_gap, max_size=1, processes=procs))
+                outs[(factor, procs)] = [float(v) for _, v in out]
+    except Exception as e:      # noqa: BLE001
+        res.violation(f"exhaustive search with a caller-defined gap function raised {type(e).__name__}: {e}", {"n": n, "values": table},
+                      key="search:raised")
+        return
+    finally:
+        GAP_PARAMETER[0] = 1.0
+    res.evaluations += 1
+    res.count("search:caller-gap-setting-changed-between-searches")
+    base = outs[(1.0, 2)]
+    for (factor, procs), vals in outs.items():
+        if vals != [factor * x for x in base]:
+            res.violation(f"a search run after the caller changed a module-level setting of its own gap function (factor {factor}, "
+                          f"{procs} processes) does not report the gaps of the gap function as it is now",
+                          {"n": n, "values": table, "factor": factor, "processes": procs, "reported": vals,
+                           "expected": [factor * x for x in base]}, key="search:stale-workers")
+            return
 
 
 def replay_c11_search(inp: dict):
